@@ -34,14 +34,23 @@ type armorEncoderStream struct {
 	encoder io.WriteCloser
 	nWords  int
 	params  armorParams
+	// err is the first error returned by the underlying writer. The word
+	// being written when it happened is lost, so the stream cannot go
+	// on: every later Write and Close returns it.
+	err error
 }
 
 func (s *armorEncoderStream) Write(b []byte) (n int, err error) {
+	if s.err != nil {
+		return 0, s.err
+	}
 	n, err = s.encoder.Write(b)
 	if err != nil {
+		s.err = err
 		return n, err
 	}
 	if err := s.spaceAndOutputBuffer(); err != nil {
+		s.err = err
 		return n, err
 	}
 	return n, nil
@@ -66,6 +75,14 @@ func (s *armorEncoderStream) spaceAndOutputBuffer() error {
 }
 
 func (s *armorEncoderStream) Close() (err error) {
+	if s.err != nil {
+		return s.err
+	}
+	defer func() {
+		if err != nil {
+			s.err = err
+		}
+	}()
 	if err = s.encoder.Close(); err != nil {
 		return err
 	}
